@@ -935,3 +935,47 @@ m('c09-nbr-axis', ['C09'],
   (EE, "        for edge in elem.edges_axis(0):\n            time_neighbours",
    "        for edge in elem.edges_axis(1):\n            time_neighbours"),
   rule='R-patch')
+
+# ---- C14 ------------------------------------------------------------------
+m('c14-noreturn', ['C14'],
+  (QR, """    elif N == 12:
+        return ((""", """    elif N == 12:
+        (("""), rule='E1-rule')
+m('c14-14-map', ['C14'],
+  (N, "        self.semi_1_4_xy = x * (1 - y)", "        self.semi_1_4_xy = x * y"),
+  rule='R-singular-measure')
+m('c14-14-no2', ['C14'],
+  (N, "        self.semi_1_4_weights = 2 * gauss_sqrtinv_2d.weights / y",
+   "        self.semi_1_4_weights = gauss_sqrtinv_2d.weights / y"),
+  rule='R-singular-measure')
+m('c14-14-noy', ['C14'],
+  (N, "        self.semi_1_4_weights = 2 * gauss_sqrtinv_2d.weights / y",
+   "        self.semi_1_4_weights = 2 * gauss_sqrtinv_2d.weights"),
+  rule='R-singular-measure')
+m('c14-14-h', ['C14'],
+  (N, "        return h**(1 / 2) * np.dot((fx - fxy)**2, self.semi_1_4_weights)",
+   "        return h * np.dot((fx - fxy)**2, self.semi_1_4_weights)"),
+  rule='R-singular-measure')
+m('c14-14-tile', ['C14'],
+  (N, "        fx = np.repeat(f(x), len(x))\n        fxy = np.asarray(f(xy))\n        return h**(1 / 2)",
+   "        fx = np.tile(f(x), len(x))\n        fxy = np.asarray(f(xy))\n        return h**(1 / 2)"),
+  rule='R-singular-measure')
+m('c14-pw-points', ['C14'],
+  (N, "        points = [np.hstack([1 - x, 1 - x * y]), np.hstack([x * y, x])]",
+   "        points = [np.hstack([1 - x, x * y]), np.hstack([x * y, x])]"),
+  rule='R-jac')
+m('c14-pw-cross-factor', ['C14'],
+  (N, "        result += 2 * self.semi_1_2_pw.integrate(slo, a_1, b_1, a_2, b_2)",
+   "        result += self.semi_1_2_pw.integrate(slo, a_1, b_1, a_2, b_2)"),
+  rule='R-singular-measure')
+m('c14-12-factor', ['C14'],
+  (N, "        return 2 * h**2 * np.dot((fx - fxy)**2 / xy_sqr, self.semi_1_2_weights)",
+   "        return h**2 * np.dot((fx - fxy)**2 / xy_sqr, self.semi_1_2_weights)"),
+  rule='R-singular-measure')
+m('c14-12-map', ['C14'],
+  (N, "        self.semi_1_2_xy = x * y", "        self.semi_1_2_xy = x * (1 - y) * y"),
+  rule='R-singular-measure')
+m('c14-legendre-order', ['C14'],
+  (N, "        self.gauss_leg = gauss_quadrature_scheme(N_poly_1_2)",
+   "        self.gauss_leg = gauss_quadrature_scheme(N_poly_1_2 + 2)"),
+  rule='R-singular-measure')
